@@ -26,44 +26,34 @@ func (server *Server) Set(conn *redis.Conn, key string, val string, opt redis.Se
 		return nil, err
 	}
 
-	var oldVal []byte
-	hasOldRecord := false
-	if opt.NX || opt.GET {
-		var currRecord *Record
-		currRecord, hasOldRecord = db.GetRecord(key)
-		switch {
-		case opt.NX:
-			if hasOldRecord {
-				return redis.NewIntegerMessage(0), nil
-			}
-		case opt.GET:
-			if hasOldRecord {
-				stringData, ok := currRecord.Data.(string)
-				if ok {
-					oldVal = []byte(stringData)
-				}
-			}
-		}
-	}
-
 	record := &Record{
 		Key:       key,
 		Data:      val,
 		Timestamp: time.Now(),
 		TTL:       0,
 	}
-	db.SetRecord(record)
 
+	// NX and GET are single atomic map operations so that concurrent clients can not both win a SETNX
+	// or both read the same old value with GETSET.
 	switch {
 	case opt.NX:
+		if _, loaded := db.LoadOrStore(key, record); loaded {
+			return redis.NewIntegerMessage(0), nil
+		}
 		return redis.NewIntegerMessage(1), nil
 	case opt.GET:
-		if hasOldRecord && oldVal != nil {
-			return redis.NewBulkMessage(string(oldVal)), nil
+		prev, loaded := db.Swap(key, record)
+		if loaded {
+			if prevRecord, ok := prev.(*Record); ok {
+				if stringData, ok := prevRecord.Data.(string); ok {
+					return redis.NewBulkMessage(stringData), nil
+				}
+			}
 		}
 		return redis.NewNilMessage(), nil
 	}
 
+	db.SetRecord(record)
 	return redis.NewOKMessage(), nil
 }
 
